@@ -265,6 +265,91 @@ def random_tcp_history(rng, hid, steps=6):
     return h
 
 
+def op_pod(svc, n, ns=NS, terminating=False, group=None):
+    labels = {"app": svc}
+    if group:
+        labels["group"] = group
+    return dict(kind="pod", name="%s/%s-%s" % (ns, svc, n), ip="%s%s" % (SVC_IP.get(svc, "10.8.0."), n), labels=labels, terminating=terminating)
+
+
+POD_ANN = [
+    {"blue-green-deploy": "group=blue=1,group=green=3", "blue-green-mode": "pod"},
+    {"blue-green-deploy": "group=blue=1,group=green=2", "blue-green-mode": "deploy"},
+    {"backend-server-naming": "pod"},
+    {"affinity": "cookie", "session-cookie-value-strategy": "pod-uid"},
+    {"assign-backend-server-id": "true"},
+    {"affinity": "cookie", "session-cookie-preserve": "true", "backend-server-naming": "ip"},
+]
+
+
+def random_pod_history(rng, hid, steps=6):
+    """Pods behind the endpoints (drain-support, blue/green by pod label, names / cookies / ids taken from the pod): pods turn
+    terminating, disappear and come back while the Endpoints follow in the same batch or a later one.  What the endpoints
+    controller guarantees is kept: the Endpoints of a service name existing pods only (a deleted pod leaves them in the batch
+    of its deletion; a terminating one may stay listed)."""
+    drain = rng.random() < 0.7
+    h = dict(id=hid, opt=dict(shards=rng.choice([0, 0, 3]), watchwithoutclass=True), steps=[])
+    grp = lambda n: ("blue", "green")[int(n) % 2]
+    pods = {}   # (svc, n) -> terminating
+    live = {}
+    cur = {"s1": "e1", "s2": "e2"}
+    members = lambda eid: {int(n) for part in EPS[eid] for n in part}
+    ok = lambda svc, eid: all((svc, n) in pods for n in members(eid))
+
+    def eps(svc, pref=None):
+        c = [e for e in (pref or sorted(EPS)) if ok(svc, e)] or [e for e in sorted(EPS) if ok(svc, e)]
+        cur[svc] = rng.choice(c)
+        return op_eps(svc, cur[svc])
+
+    for s in range(steps):
+        ops = []
+        if s == 0:
+            ops += base_ops()
+            ops.append(op_cm({"drain-support": "true"} if drain else {}))
+            for svc in ("s1", "s2"):
+                for n in (1, 2, 3, 4):
+                    ops.append(op_pod(svc, n, group=grp(n)))
+                    pods[(svc, n)] = False
+            ops.append(op_ing(1, rng.choice(["t1", "t4", "t9"]), rng.choice(POD_ANN)))
+            live[1] = True
+        for _ in range(1 + rng.randrange(3)):
+            r = rng.random()
+            svc, n = rng.choice(["s1", "s2"]), rng.choice([1, 2, 3, 4])
+            if r < 0.3:
+                # a pod turns terminating; the Endpoints may or may not follow in this batch
+                if (svc, n) in pods and not pods[(svc, n)]:
+                    ops.append(op_pod(svc, n, terminating=True, group=grp(n)))
+                    pods[(svc, n)] = True
+                    if rng.random() < 0.6:
+                        ops.append(eps(svc, ["e0", "e1", "e2", "e3", "e4"]))
+            elif r < 0.45:
+                if (svc, n) in pods:
+                    ops.append(op_del("pod", "%s/%s-%s" % (NS, svc, n)))
+                    del pods[(svc, n)]
+                    if not ok(svc, cur[svc]):
+                        ops.append(eps(svc))
+            elif r < 0.55:
+                if (svc, n) not in pods:
+                    ops.append(op_pod(svc, n, group=grp(n + (1 if rng.random() < 0.3 else 0))))
+                    pods[(svc, n)] = False
+                    ops.append(eps(svc, ["e1", "e2", "e4"]))
+            elif r < 0.8:
+                ops.append(eps(svc))
+            else:
+                slot = 1 + rng.randrange(3)
+                if slot in live and rng.random() < 0.25:
+                    ops.append(op_del("ing", "%s/i%d" % (NS, slot)))
+                    del live[slot]
+                else:
+                    ops.append(op_ing(slot, rng.choice(["t1", "t2", "t4", "t6", "t9"]), rng.choice(POD_ANN + [None])))
+                    live[slot] = True
+        st = dict(ops=ops, fullfirst=False)
+        if rng.random() < 0.3:
+            st["shuffle"] = rng.randrange(1, 1 << 30)
+        h["steps"].append(st)
+    return h
+
+
 # ------------------------------------------------------------------ TLA+ view of the core vocabulary
 
 REQ_PATHS = ["/", "/a", "/a/", "/a/b", "/a/b/c", "/ab", "/A", "/x", "/Up", "/up", "/Pre/x", "/pre/x"]
